@@ -55,8 +55,8 @@ theorem C18_reader_closed (v : Variant) (L : Layout) (s : RState) (h : s.err = n
 theorem C18_guards_in_source :
     [ Facts.guardOf "xflate" "*Writer" "Write", Facts.guardOf "xflate" "*Writer" "Flush", Facts.guardOf "xflate" "*Writer" "Close",
       Facts.guardOf "xflate" "*Reader" "Read", Facts.guardOf "xflate" "*Reader" "Seek", Facts.guardOf "xflate" "*Reader" "Close" ] =
-    [ some (true, []), some (true, []), some (true, ["==errClosed"]),
-      some (true, ["==io.EOF"]), some (true, ["!=io.EOF"]), some (true, ["!=io.EOF", "==errClosed"]) ] := by
+    [ some (true, []), some (true, []), some (true, ["done"]),
+      some (true, ["==io.EOF"]), some (true, ["!=io.EOF"]), some (true, ["!=io.EOF", "done"]) ] := by
   have := Compress.Facts.guards_expected
   decide
 
